@@ -337,6 +337,10 @@ func (this *RLT) Inverse(src, dst []byte) (uint, uint, error) {
 		return 0, 0, errors.New("Input and output buffers cannot be equal")
 	}
 
+	if len(src) < 2 {
+		return 0, 0, errors.New("RLT inverse transform failed: invalid data")
+	}
+
 	srcIdx := 0
 	dstIdx := 0
 	srcEnd := len(src)
